@@ -118,10 +118,11 @@ void vf::run_case(Src &s, Ctx &c)
     }
     // PDST re-derives the interior of a split motion by interpolating between the split points again; on Dubins that is a different
     // (known-finding) failure family from anything it does elsewhere, so the space family is part of its key
-    // The same holds for the other planners that keep the valid part of a failed motion (KPIECE1, STRIDE, RLRT): the motion they store
-    // ends at the last valid state and is interpolated afresh later, which presumes that a prefix of a curve is the curve to its end
-    // point - the curve families break that (C14 prefix findings, Dubins discontinuity).
-    static const char *partial[] = {"PDST", "KPIECE1", "STRIDE", "RLRT"};
+    // The same holds for the other planners that keep the valid part of a failed motion (KPIECE1, STRIDE, RLRT) or cut a validated motion
+    // into pieces (the intermediate-state variants): the motion they store is interpolated afresh later, which presumes that a part of a
+    // curve is the curve between its end points - the curve families break that (C14 prefix findings, Dubins discontinuity). Whether
+    // the re-derived piece then shows as an out-of-bounds vertex, an invalid stretch or a failed re-check is one finding, one key.
+    static const char *partial[] = {"PDST", "KPIECE1", "STRIDE", "RLRT", "RRT(intermediate)", "RRTConnect(intermediate)"};
     bool usesPartialMotions = false;
     for (auto *n : partial)
         if (std::string(pi.name) == n)
@@ -210,6 +211,8 @@ void vf::run_case(Src &s, Ctx &c)
         pg->printAsMatrix(os);
         c.note("reported path (one state per line):\n%s", os.str().substr(0, 3000).c_str());
     }
+    if (!v.ok() && usesPartialMotions && P->ps.curveFamily() && (v.key == "bounds" || v.key == "invalid-stretch" || v.key == "recheck"))
+        v.key = "off-validated-curve";
     if (!v.ok())
         c.failOrKnown(KP "/" + v.key + pkey, vf::fmt("%s on %s: %s [%s, %zu states]", pi.name, P->ps.name().c_str(), v.msg.c_str(), statusName(st), pg->getStateCount()));
     bool forced = P->scenario != SC_NORMAL;
